@@ -608,16 +608,20 @@ size_t varintFloatEncodeAuto(uint8_t *output, const double *values,
      * HIGH:   23-bit → 2^-23 ≈ 1.2e-7 (use for < 5e-4)
      * MEDIUM: 10-bit → 2^-10 ≈ 9.8e-4 (use for < 3e-2)
      * LOW:     4-bit → 2^-4  ≈ 6.3e-2 (use for >= 3e-2) */
-    varintFloatPrecision precision = VARINT_FLOAT_PRECISION_LOW;
+    /* Pick the coarsest precision whose published bound
+     * (varintFloatPrecisionMaxRelativeError: 2^-mantissa_bits) does not
+     * exceed the error the caller accepts */
+    varintFloatPrecision precision = VARINT_FLOAT_PRECISION_FULL;
 
-    if (max_relative_error < 1e-10) {
-        precision = VARINT_FLOAT_PRECISION_FULL;
-    } else if (max_relative_error < 5e-4) { /* 0.05% threshold */
-        precision = VARINT_FLOAT_PRECISION_HIGH;
-    } else if (max_relative_error < 0.03) { /* 3% threshold */
-        precision = VARINT_FLOAT_PRECISION_MEDIUM;
-    } else {
+    if (max_relative_error >= varintFloatPrecisionMaxRelativeError(
+                                  VARINT_FLOAT_PRECISION_LOW)) {
         precision = VARINT_FLOAT_PRECISION_LOW;
+    } else if (max_relative_error >= varintFloatPrecisionMaxRelativeError(
+                                         VARINT_FLOAT_PRECISION_MEDIUM)) {
+        precision = VARINT_FLOAT_PRECISION_MEDIUM;
+    } else if (max_relative_error >= varintFloatPrecisionMaxRelativeError(
+                                         VARINT_FLOAT_PRECISION_HIGH)) {
+        precision = VARINT_FLOAT_PRECISION_HIGH;
     }
 
     if (selected_precision) {
